@@ -529,3 +529,38 @@ func lemmaFrameStreamsBlocked(w *packetWriter, typ streamType, max int64) (ok bo
 //@ func consumeConnectionCloseApplicationFrame(b)
 //@   requires len(b) >= 1
 //@   inline
+
+// ---------------------------------------------------------------------------
+// loss.go (property C26): every fate transition of a sent packet goes from "sent" to exactly one
+// fate, and at that moment the congestion controller's bytes in flight drop by the packet's size
+// if (and only if) the packet was in flight.
+
+// splNoNil: every retained packet slot holds a packet.
+//
+//@ pure
+func splNoNil(s *sentPacketList, k int) bool {
+	return !(0 <= k && k < s.size) || splAt(s, k) != nil
+}
+
+// Trusted contracts (assumed, listed in the evidence).
+//
+//@ func (*sentPacketList).clean(s)
+//@   trusted
+//@   modifies *s, elems(s.p)
+//@ func (*lossState).scheduleTimer(c, now)
+//@   trusted
+//@   modifies *c
+//@   preserves c.cc
+
+//@ func (*lossState).detectLoss(c, now, lossf)
+//@   trustcall lossf
+//@   uses lemmaModWrap
+//@   abstractrem
+//@   requires c != nil && c.cc != nil
+//@   requires splOK(&c.spaces[0].sentPacketList) && splOK(&c.spaces[1].sentPacketList) && splOK(&c.spaces[2].sentPacketList)
+//@   requires forall k int :: splNoNil(&c.spaces[0].sentPacketList, k) && splNoNil(&c.spaces[1].sentPacketList, k) && splNoNil(&c.spaces[2].sentPacketList, k)
+//@   requires !samebase(c.spaces[0].p, c.spaces[1].p) && !samebase(c.spaces[0].p, c.spaces[2].p) && !samebase(c.spaces[1].p, c.spaces[2].p)
+//@   loop 2 invariant 0 <= i && c.cc == old(c.cc)
+//@   loop 2 step sent.state != atiter(sent.state) ==> (atiter(sent.state) == sentPacketSent && sent.state == sentPacketLost)
+//@   loop 2 step c.cc.bytesInFlight == atiter(c.cc.bytesInFlight) - ite(sent.state != atiter(sent.state) && sent.inFlight, sent.size, 0)
+//@   noframe
